@@ -81,22 +81,27 @@ CHECKS = {
 }
 # additions made after the second round of seeded changes (appended to the texts above)
 ADD = {
+ "C01": (" schema/ is built with the map-order seam; for specs whose objects have at most four properties the whole pipeline runs under the sorted and every single deviating iteration order.",
+         "exhaustive enumeration of a bounded (schema, accepted value) universe with a relational round-trip oracle incl. real CBOR transport, each under exhaustive (deviation-bounded) map-iteration orders"),
  "C17": (" schema/ is built with the map-order seam and every operation runs under the sorted and every single deviating iteration order of every map it ranges over: which element a rejection names must not depend on it.",
          "exhaustive single-fault enumeration over every position of bounded inputs with a by-construction path oracle, each under exhaustive (deviation-bounded) map-iteration orders"),
  "C19": (" Names include identifiers starting with a non-ASCII letter and names that are proper parts of each other (and of the ignore argument).", None),
- "C07": (" The alphabet includes a work-start whose input the step's schema rejects.", None),
- "C05": (" A map-based echo step carries a payload-rich input (integer-keyed map, nested collections, nested object, any) in a v3 and a v1 session.", None),
- "C11": (" Part U includes a signal whose handler is declared for another step data type than the step creates.", None),
+ "C07": (" The alphabet includes a work-start whose input the step's schema rejects; one fixed script is a burst of six failing runs over an unbuffered pipe whose reader starts late.", None),
+ "C05": (" One session has six rejected runs and a good one at once while the client's reader stalls (virtual timer). A map-based echo step carries a payload-rich input (integer-keyed map, nested collections, nested object, any) in a v3 and a v1 session.", None),
+ "C11": (" Part U includes a signal whose handler is declared for another step data type than the step creates, and an input that is rejected only at the validation stage.", None),
  "C02": (" Schemas with units are additionally raced on first use: two threads unserialize accepted unit strings on one fresh schema under the cooperative scheduler, all schedules with <= 2 preemptions, vector-clock race scan and denoted results.",
          "exhaustive enumeration of a bounded (schema, value) universe against a reference model (differential, small-scope); first-use paths of unit-bearing schemas by preemption-bounded schedule exploration with race detection"),
- "C03": (" Every map-based object and one-of is checked twice: built by the constructors, and loaded from its own description through the meta-schema without any constructor (first use of all lazily computed state).", None),
- "C06": (" Histories include the same run id used twice (concurrently and back to back).", None),
- "C08": (" Scenarios include server-fatal error messages followed by a later Execute; every read-side scenario also has its fault-free alternative judged.", None),
+ "C03": (" Every map-based object and one-of is checked twice: built by the constructors, and loaded from its own description through the meta-schema without any constructor (first use of all lazily computed state). schema/ is built with the map-order seam: Unserialize on the built instance runs under the sorted and every single deviating iteration order (quick: objects with at most four properties).",
+         "exhaustive enumeration of the flag-combination space of small objects x supplied-property subsets against a reference model, under exhaustive (deviation-bounded) map-iteration orders"),
+ "C06": (" Histories include the same run id used twice (concurrently and back to back) and a peer that sends a step-fatal error without run id before a run's own terminal message.", None),
+ "C08": (" Scenarios include server-fatal error messages followed by a later Execute, a dying peer (every client write fails from the moment the read fault is reached) and Close called while runs are pending; every read-side scenario also has its fault-free alternative judged.", None),
  "C09": (" Every scope is also loaded through DescribeScope().Unserialize + ApplySelf, and wrapped as input, output, signal handler and emitter of a one-step plugin that is rebuilt from a real hello message by Client.ReadSchema.", None),
  "C10": (" Load history: every description rejected in a batch is loaded again twice in the same process after a garbage collection and must be rejected again.",
          "exhaustive single-fault (mutation) enumeration over every node of bounded schema descriptions, each followed by bounded exhaustive use of the returned schema; repeated-load histories for rejected descriptions"),
- "C13": (" Step calls: CallStep / CallSignal for run ids r1, r2 from 2-4 threads on one callable schema (first use of a run id raced between step and signal), same race scan, initializer once per run id, handlers see their run's step data.", None),
- "C14": (" The alphabet of applications includes failing ones (a namespace applied with an empty table; the documented panic is recovered): every reference must be as before.", None),
+ "C13": (" The access rewrite treats slice backing arrays as shared objects (range, index, append into spare capacity, copy, sort / slices calls); one of the operations is an Unserialize the schema rejects. Step calls: CallStep / CallSignal for run ids r1, r2 from 2-4 threads on one callable schema (first use of a run id raced between step and signal), same race scan, initializer once per run id, handlers see their run's step data.", None),
+ "C14": (" The alphabet of applications includes failing ones (a namespace applied with an empty table; the documented panic is recovered): every reference must be as before. Chain trees through same-id objects; every fully linked tree is also loaded from its own description, the same namespaces applied, and compared.", None),
+ "C15": (" Every pair is also evaluated with the schema objects of the common parts shared by identity between consumer and producer.", None),
+ "C12": (" The history oracle also observes, before any probe, the defaults and direct behaviour of every object schema inside the instance.", None),
  "C16": (" First use: every pair over {ParseInt, FormatShortInt, FormatLongInt, ParseFloat} issued by two threads on one fresh definition under the cooperative scheduler, all schedules with <= 2 preemptions, vector-clock race scan and results equal to a single caller's.",
          "exhaustive enumeration of a bounded input space (integers, float grids, component strings) against a reference model; first-use paths by preemption-bounded schedule exploration with race detection"),
 }
